@@ -63,7 +63,8 @@ class SingleInterval(Location):
         self._sequence = None
         self.parent = None
 
-        if parent:
+        # "is not None": an empty Sequence or a zero-length Location given as parent is falsy, but it is a parent
+        if parent is not None:
             parent_obj = make_parent(parent)
             if parent_obj.sequence is not None and end > len(parent_obj.sequence):
                 raise InvalidPositionException(
@@ -447,7 +448,7 @@ class CompoundInterval(Location):
         """
         if not len(starts) == len(ends) > 0:
             raise LocationException("Lists of start and end positions must be nonempty and have same length")
-        parent_obj = make_parent(parent) if parent else None
+        parent_obj = make_parent(parent) if parent is not None else None
         if parent_obj:
             if parent_obj.location:
                 single_interval_parent = Parent(
